@@ -107,6 +107,9 @@ pub enum Cls {
     W,
     /// width-1 letters, first letter of every word followed by U+0301
     C,
+    /// width-1 letters; the text node *starts* with U+0301 (a combining mark as the first
+    /// character of a piece, e.g. right after an inline element boundary)
+    M,
 }
 
 /// A text node: words of its identifying character.
@@ -136,6 +139,9 @@ impl Txt {
             Cls::W => wide_pool()[label % wide_pool().len()],
             _ => narrow_pool()[label % narrow_pool().len()],
         };
+        if self.cls == Cls::M && !self.lead {
+            s.push(COMBINING);
+        }
         for (i, &n) in self.words.iter().enumerate() {
             if i > 0 {
                 s.push(' ');
@@ -962,7 +968,7 @@ pub fn txt(g: &G) -> BoxedStrategy<Txt> {
         (1u8..=8).boxed()
     };
     let cls = if g.wide {
-        prop_oneof![8 => Just(Cls::N), 2 => Just(Cls::W), 1 => Just(Cls::C)].boxed()
+        prop_oneof![16 => Just(Cls::N), 4 => Just(Cls::W), 2 => Just(Cls::C), 1 => Just(Cls::M)].boxed()
     } else {
         Just(Cls::N).boxed()
     };
